@@ -20,7 +20,7 @@ Stores == UNION { [d -> StoreVals] : d \in SUBSET TestKeys }
 Keys == {"k1", "k2", "conn"}
 Vals == {"v1", "v2", "", "R"}
 Proofs == {"sentinel", "empty", "nil", "other", "sentinelx", "real"}
-HCs == {"zero", "cur", "past", "future"}
+HCs == {"zero", "cur", "past", "next", "future"}
 VActs == [a : {"VM"}, key : Keys, val : Vals, proof : Proofs, plen : 1..3, hc : HCs]
     \cup [a : {"VNM"}, key : Keys \cup {"absentreal"}, proof : Proofs, plen : 1..3, hc : HCs]
 Table == { [pre |-> s, act |-> a] : s \in Stores, a \in VActs }
